@@ -53,8 +53,9 @@ def gen_universe(rng):
     def mk(path, pkg, depth):
         m = dict(path=path, pkg=pkg, raises=None, members=[], effects=[])
         r = rng.random()
-        if r < 0.16:
-            m["raises"] = rng.choice(["early", "late", "late", "syntax"])
+        if r < 0.19:
+            # "exit" / "exit_early": the module calls sys.exit() (SystemExit is not an Exception subclass)
+            m["raises"] = rng.choice(["early", "late", "late", "syntax", "exit", "exit", "exit_early"])
         pool = MEMS + ([rng.choice(SUBS)] if pkg and rng.random() < 0.25 else [])
         for nm in pool:
             if rng.random() < 0.45:
@@ -385,7 +386,54 @@ CLASS_SNIPPETS = [
 ]
 
 
-def gen_code(rng, pool, idents=None, bound=None, session=False):
+# PEP 695 (type parameters, `type` statements).  (a) the decorators and the parameter defaults of a generic def /
+# class are evaluated OUTSIDE the scope of its type parameters: a type parameter named like the head of {a} does not
+# bind that read (C07-N2); (b) such a scope inside a class body sees the class-level names: {h} is bound and read at
+# class level, nothing may be imported for it (C06-N3); the rest are controls
+PEP695_SNIPPETS = [
+    "def fn[{ha}](q={a}): return q\nfn()", "def fn[{ha}](*, k={a}): return k\nfn()", "@{a}\nclass K[{ha}]: pass",
+    "@{a}\ndef fn[{ha}](): pass", "async def fn[{ha}](p=1, /, q={a}, *r, k={b}): pass", "@{b}({a})\ndef fn[T, {ha}](): pass",
+    "class K:\n    {h} = int\n    class Inner[T]({h}): pass", "class K:\n    {h} = int\n    type Al = list[{h}]\n    Al.__value__",
+    "class K:\n    {h} = int\n    class Inner[T: {h}]: pass\n    Inner.__type_params__[0].__bound__",
+    "class K:\n    {h} = int\n    type Al[U: {h}] = list[U]", "class K:\n    {h} = int\n    class Inner[T]({a}, kw={h}): pass",
+    "class K:\n    {h} = int\n    def m[T: {h}](self, q: {h} = {a}) -> {h}: pass",
+    "def fn[T](q: T = {a}) -> T: return q\nfn()", "class K[T]({a}): pass", "type Al[T: {a}] = list[T]\nAl.__type_params__[0].__bound__",
+    "type Al = {a}\nAl.__value__", "def fn[T: {a}](q: T): pass\nfn.__type_params__[0].__bound__", "def fn[{h}](q: {h}) -> {h}: return {a}",
+    "class K[{h}]:\n    x: {h}\n    def m(self) -> {h}: return {a}",
+]
+# text given as a CODE OBJECT (the bytecode route of find_missing_imports): annotation scopes nested in a class body
+# read globals with their own opcode (C07-N1); plain controls
+CODEOBJ_SNIPPETS = [
+    "class K:\n    def m[T](self, q: T) -> {a}: ...", "class K:\n    class Inner[T]({a}): pass",
+    "class K:\n    def m[T: {a}](self): ...", "class K:\n    type Al = {a}", "class K:\n    def m[T](self, *r: {a}, k: {b} = 1): ...",
+    "{a}", "x = {a}\nprint(x)", "def fn():\n    return {a}\nfn()", "class K:\n    z = {a}", "{a}; {b}", "def fn[T](q: T) -> {a}: ...",
+]
+# text that does NOT parse although Unicode normalisation (NFKC) would turn it into a dotted name: a compatibility
+# full stop between the parts, a compatibility digit inside an identifier (C06-N1)
+_NFKC_DOTS = ["\uff0e", "\u2024", "\ufe52"]
+_NFKC_DIGITS = {"1": ["\u2460", "\u00b9", "\u2474"], "2": ["\u2461", "\u00b2"]}
+_NFKC_LETTERS = {"v": "\uff56", "s": "\uff53", "f": "\uff46", "a": "\uff41"}     # these DO parse (identifier characters)
+
+
+def nfkc_variant(rng, d):
+    """`d` (a dotted name) respelt with compatibility characters; most variants do not parse, the letter ones do"""
+    r = rng.random()
+    digits = [i for i, ch in enumerate(d) if ch in _NFKC_DIGITS]
+    dots = [i for i, ch in enumerate(d) if ch == "."]
+    if r < 0.45 and dots:
+        i = rng.choice(dots)
+        return d[:i] + rng.choice(_NFKC_DOTS) + d[i + 1:]
+    if r < 0.8 and digits:
+        i = rng.choice(digits)
+        return d[:i] + rng.choice(_NFKC_DIGITS[d[i]]) + d[i + 1:]
+    letters = [i for i, ch in enumerate(d) if ch in _NFKC_LETTERS]
+    if r < 0.9 and letters:
+        i = rng.choice(letters)
+        return d[:i] + _NFKC_LETTERS[d[i]] + d[i + 1:]
+    return d + rng.choice(_NFKC_DOTS) + rng.choice(MEMS)
+
+
+def gen_code(rng, pool, idents=None, bound=None, session=False, codeobj=False):
     """one snippet; `idents`: single identifiers worth using as {h} (database names, bound names, members …);
     `bound`: identifiers bound in the namespaces this call is given (for `del`)"""
     idents = idents or MEMS
@@ -397,7 +445,9 @@ def gen_code(rng, pool, idents=None, bound=None, session=False):
     a, b, c = (rng.choice(ok) for _ in range(3))
     lv, lv2 = rng.sample(LOCALS, 2)
     r = rng.random()
-    if session and rng.random() < 0.5:
+    if codeobj:
+        t = rng.choice(CODEOBJ_SNIPPETS)
+    elif session and rng.random() < 0.5:
         # a session on ONE reused ScopeStack: definitions (maybe deleted again) and later uses in function bodies
         t = rng.choice(CLASS_SNIPPETS)
     elif r < 0.06:
@@ -416,6 +466,12 @@ def gen_code(rng, pool, idents=None, bound=None, session=False):
         t = rng.choice(UNBIND_SNIPPETS)
     elif r < 0.64:
         t = rng.choice(CLASS_SNIPPETS)
+    elif r < 0.70:
+        # (names with a digit / a dot are preferred: they have non-parsing compatibility spellings)
+        cands = [d for d in ok if "." in d or any(ch in _NFKC_DIGITS for ch in d)] or ok
+        return nfkc_variant(rng, rng.choice(cands))
+    elif r < 0.78:
+        t = rng.choice(PEP695_SNIPPETS)
     else:
         t = rng.choice(SNIPPETS)
     return t.format(a=a, b=b, c=c, ha=a.split(".")[0], h=h, h2=h2, hb=hb, lv=lv, lv2=lv2)
@@ -476,7 +532,11 @@ def gen_case(rng):
             # calls of one cell may be given different namespace stacks (e.g. a debugger frame): a view of the pool
             stack = rng.sample(range(nns), rng.randint(1, nns)) if views else list(range(nns))
             bound = sorted({k for i in stack for k in nss[i]})
-            c = dict(kind="code", code=gen_code(rng, lp, focus_id if (session or rng.random() < 0.5) else idents, bound, session))
+            as_codeobj = rng.random() < 0.06
+            c = dict(kind="code", code=gen_code(rng, lp, focus_id if (session or rng.random() < 0.5) else idents, bound, session,
+                                                codeobj=as_codeobj))
+            if as_codeobj:
+                c["as"] = "codeobj"       # the call is given compile(code) instead of the text
             if views:
                 c["stack"] = stack
             calls.append(c)
@@ -520,6 +580,8 @@ def module_source(m):
     out = [_HEAD]
     if m["raises"] == "early":
         out.append("raise RuntimeError('vq early')\n")
+    if m["raises"] == "exit_early":
+        out.append("_sys.exit(3)\n")
     for mem in m["members"]:
         out.append("%s = _T(%r)\n" % (mem, m["path"] + "." + mem))
     for e in m["effects"]:
@@ -537,6 +599,8 @@ def module_source(m):
                        "    _sys.modules[%r] = _n\n" % (e["target"], e["target"], e["tag"], e["target"]))
     if m["raises"] == "late":
         out.append("raise ImportError('vq late')\n")
+    if m["raises"] == "exit":
+        out.append("_sys.exit(3)\n")
     return "".join(out)
 
 
@@ -709,6 +773,46 @@ def global_reads(code):
     return out
 
 
+def class_level_reads(code):
+    """names ALL of whose reads are resolved in a class namespace although CPython's symbol table calls them global:
+    a PEP 695 scope (type parameters of a generic class / def, a `type` statement) directly in a class body looks a
+    name up in the class namespace first; counted when an unconditional `NAME = …` of the class body precedes it"""
+    try:
+        tree = ast.parse(code)
+    except SyntaxError:
+        return set()
+    loads = {}
+    for n in ast.walk(tree):
+        if isinstance(n, ast.Name) and isinstance(n.ctx, ast.Load):
+            loads[n.id] = loads.get(n.id, 0) + 1
+    cls = {}
+    for c in ast.walk(tree):
+        if not isinstance(c, ast.ClassDef):
+            continue
+        bound = set()
+        for st in c.body:
+            parts = []
+            tp = getattr(st, "type_params", None)
+            if isinstance(st, ast.ClassDef) and tp:
+                parts = list(st.bases) + [k.value for k in st.keywords]
+            elif isinstance(st, (ast.FunctionDef, ast.AsyncFunctionDef)) and tp:
+                a = st.args
+                parts = [x.annotation for x in a.posonlyargs + a.args + a.kwonlyargs + [a.vararg, a.kwarg] if x and x.annotation]
+                parts += [st.returns] if st.returns else []
+            elif hasattr(ast, "TypeAlias") and isinstance(st, ast.TypeAlias):
+                parts = [st.value]
+            for t in (tp or []):
+                parts += [x for x in (getattr(t, "bound", None), getattr(t, "default_value", None)) if x is not None]
+            tpn = {t.name for t in (tp or [])}
+            for part in parts:
+                for n in ast.walk(part):
+                    if isinstance(n, ast.Name) and isinstance(n.ctx, ast.Load) and n.id in bound and n.id not in tpn:
+                        cls[n.id] = cls.get(n.id, 0) + 1
+            if isinstance(st, ast.Assign) and all(isinstance(t, ast.Name) for t in st.targets):
+                bound |= {t.id for t in st.targets}
+    return {k for k, v in cls.items() if v == loads.get(k)}
+
+
 def read_chains(code):
     """dotted chains (Name / Attribute-of-Name) occurring in the code, and names read"""
     try:
@@ -876,7 +980,7 @@ def run_history(case, scratch_base):
         for p in case["preload"]:
             try:
                 importlib.import_module(p)
-            except Exception:
+            except (Exception, SystemExit):
                 pass
         names = sorted(ALLNAMES)
         # namespaces
@@ -889,7 +993,7 @@ def run_history(case, scratch_base):
                     if o is None:
                         try:
                             o = importlib.import_module(v["path"])
-                        except Exception:
+                        except (Exception, SystemExit):
                             o = None
                     d[k] = o
                 elif v["k"] == "none":
@@ -924,8 +1028,14 @@ def run_history(case, scratch_base):
             code = None
             if call["kind"] == "code":
                 code = call["code"]
+                arg = code
+                if call.get("as") == "codeobj":
+                    try:
+                        arg = compile(code, "<vq>", "exec", dont_inherit=True)
+                    except SyntaxError:
+                        arg = code
                 try:
-                    co["missing"] = [str(x) for x in A.find_missing_imports(code, stk)]
+                    co["missing"] = [str(x) for x in A.find_missing_imports(arg, stk)]
                 except SyntaxError:
                     co["missing"] = "syntax"
                 except Exception as e:
@@ -933,15 +1043,15 @@ def run_history(case, scratch_base):
                 if stk is not fresh:
                     # the same analysis on a fresh stack over the same namespaces
                     try:
-                        co["missing_fresh"] = [str(x) for x in A.find_missing_imports(code, list(fresh))]
+                        co["missing_fresh"] = [str(x) for x in A.find_missing_imports(arg, list(fresh))]
                     except SyntaxError:
                         co["missing_fresh"] = "syntax"
                     except Exception as e:
                         co["missing_fresh"] = "exc:" + type(e).__name__
                 with rec:
                     try:
-                        res = A.auto_import(code, stk, db=db_arg, autoimported=autoimported, extra_db=extra)
-                    except Exception as e:
+                        res = A.auto_import(arg, stk, db=db_arg, autoimported=autoimported, extra_db=extra)
+                    except (Exception, SystemExit) as e:
                         res = "exc:" + type(e).__name__
             elif call["kind"] == "symbol":
                 code = call["name"]
@@ -953,13 +1063,13 @@ def run_history(case, scratch_base):
                     try:
                         res = A.auto_import_symbol(call["name"], stk, db=(db | extra if extra is not None else db_arg),
                                                    autoimported=autoimported)
-                    except Exception as e:
+                    except (Exception, SystemExit) as e:
                         res = "exc:" + type(e).__name__
             else:
                 with rec:
                     try:
                         res = A._try_import(call["imp"], nss[call["ns"]])
-                    except Exception as e:
+                    except (Exception, SystemExit) as e:
                         res = "exc:" + type(e).__name__
             co["result"] = res
             co["events"] = rec.events
@@ -974,7 +1084,7 @@ def run_history(case, scratch_base):
                 for d in co["missing"]:
                     try:
                         sni.append(bool(A.symbol_needs_import(d, stk)))
-                    except Exception as e:
+                    except (Exception, SystemExit) as e:
                         sni.append("exc:" + type(e).__name__)
                 co["sni_after"] = sni
             # ---- forked child (same memory image): does the code run after a reported success ------------
@@ -1101,6 +1211,7 @@ def oracle_c06(case, obs):
                 gr = global_reads(code)
                 if gr is not None:
                     heads &= gr        # a name the code binds itself (parameter, local …) is not read from outside
+                heads -= class_level_reads(code)
             for k, d, i in added[tgt]:
                 # -- only top-level names that the code reads
                 if k not in heads:
@@ -1135,8 +1246,9 @@ def oracle_c06(case, obs):
                 why = "fails" if raises else "disagrees with an existing binding"
                 if s0 != s1:
                     fails.append(dict(what="an import that %s changed a namespace" % why, stmt=key, **_ctx(case, ci, co)))
+                exc = e[4][1] if (e[4] and e[4][0] == "raise") else None
                 if raises and key not in co["failed"]:
-                    fails.append(dict(what="a failing import was not recorded as failed", stmt=key, **_ctx(case, ci, co)))
+                    fails.append(dict(what="a failing import was not recorded as failed", stmt=key, exc=exc, **_ctx(case, ci, co)))
                 again = None
                 for cj in range(ci, len(obs["calls"])):
                     if case["calls"][cj]["kind"] == "newcell":
@@ -1150,7 +1262,7 @@ def oracle_c06(case, obs):
                         break
                 if again is not None:
                     fails.append(dict(what="an import that %s was attempted again in the same cell" % why, stmt=key,
-                                      again_in_call=again, **_ctx(case, ci, co)))
+                                      again_in_call=again, exc=(exc if raises else None), **_ctx(case, ci, co)))
             elif key in newly_failed:
                 fails.append(dict(what="an import that succeeded was recorded as failed", stmt=key, **_ctx(case, ci, co)))
     return fails[:6]
@@ -1235,6 +1347,109 @@ def oracle_c07(case, obs):
     return fails[:6]
 
 
+# ----------------------------------------------------------------------------
+# family predicates of the listed findings N1 … (shared by C06 and C07: the same defect shows in both oracles)
+# ----------------------------------------------------------------------------
+
+def _call_code(failure):
+    call = failure.get("call") or {}
+    return call.get("code") if call.get("kind") == "code" else None
+
+
+def unparsable_but_nfkc_dotted(code):
+    """the text does not parse, yet its NFKC normalisation is a dotted name (and differs from the text)"""
+    import keyword
+    import unicodedata
+    if not isinstance(code, str):
+        return False
+    try:
+        ast.parse(code)
+        return False
+    except SyntaxError:
+        pass
+    n = unicodedata.normalize("NFKC", code)
+    return n != code and all(p.isidentifier() and not keyword.iskeyword(p) for p in n.split("."))
+
+
+_N1_WHATS = {"unparsable code added names", "unparsable code did not report failure", "unparsable code caused an import attempt",
+             "added a name the code does not read", "added binding does not come from the unique database entry or a spelled module path"}
+
+
+def fam_n1(case, failure):
+    """C06-N1: find_missing_imports NFKC-normalises the WHOLE text before testing whether it is a dotted name, so text
+    that does not parse (compatibility full stop / digit) is treated as that name and imported for."""
+    return failure.get("what") in _N1_WHATS and unparsable_but_nfkc_dotted(_call_code(failure))
+
+
+_N2_WHATS = {"a failing import was not recorded as failed", "an import that fails was attempted again in the same cell",
+             "exception escaped instead of a result"}
+
+
+def fam_n2(case, failure):
+    """C06-N2: a module of the universe calls sys.exit() while it is imported; `_try_import` (and ModuleHandle.exists)
+    catch Exception only: SystemExit escapes the call, nothing is recorded, the import is executed again."""
+    return (failure.get("what") in _N2_WHATS and failure.get("exc") == "SystemExit"
+            and any(m.get("raises") in ("exit", "exit_early") for m in case["universe"]))
+
+
+def fam_n3(case, failure):
+    """C06-N3: a name bound at class level and read only from a PEP 695 scope directly in that class body (bases /
+    bounds of a generic nested class, a `type` statement) is reported missing and imported."""
+    code = _call_code(failure)
+    return (failure.get("what") == "added a name the code does not read" and isinstance(code, str)
+            and failure.get("name") in class_level_reads(code))
+
+
+def _nameerror_name(failure):
+    run = failure.get("run")
+    if failure.get("what") != "reported success but the code raises NameError" or not isinstance(run, str):
+        return None
+    return run.split(":", 1)[1] if ":" in run else None
+
+
+def fam_p2(case, failure):
+    """C07-N2: the NameError is for a name N read in a decorator / parameter default of a generic def / class one of
+    whose type parameters is called N (those expressions are evaluated outside the type-parameter scope)."""
+    nm, code = _nameerror_name(failure), _call_code(failure)
+    if nm is None or not isinstance(code, str):
+        return False
+    try:
+        tree = ast.parse(code)
+    except SyntaxError:
+        return False
+    for n in ast.walk(tree):
+        tp = getattr(n, "type_params", None)
+        if not tp or not isinstance(n, (ast.FunctionDef, ast.AsyncFunctionDef, ast.ClassDef)):
+            continue
+        if nm not in {t.name for t in tp}:
+            continue
+        outside = list(n.decorator_list)
+        if not isinstance(n, ast.ClassDef):
+            outside += list(n.args.defaults) + [d for d in n.args.kw_defaults if d is not None]
+        if any(isinstance(x, ast.Name) and x.id == nm for e in outside for x in ast.walk(e)):
+            return True
+    return False
+
+
+def fam_p1(case, failure):
+    """C07-N1: the code was given as a CODE OBJECT and the NameError is for a name read in a PEP 695 scope directly in a
+    class body (opcode LOAD_FROM_DICT_OR_GLOBALS, which the bytecode scan does not know)."""
+    nm, code = _nameerror_name(failure), _call_code(failure)
+    if nm is None or not isinstance(code, str) or (failure.get("call") or {}).get("as") != "codeobj":
+        return False
+    try:
+        tree = ast.parse(code)
+    except SyntaxError:
+        return False
+    for c in ast.walk(tree):
+        if isinstance(c, ast.ClassDef):
+            for st in c.body:
+                if getattr(st, "type_params", None) or (hasattr(ast, "TypeAlias") and isinstance(st, ast.TypeAlias)):
+                    if any(isinstance(x, ast.Name) and x.id == nm for x in ast.walk(st)):
+                        return True
+    return False
+
+
 def _module_exists_on_disk(case, top):
     return any(m["path"] == top for m in case["universe"])
 
@@ -1266,7 +1481,10 @@ def model_request(case, obs):
     nss = []
     for spec in case["nss"]:
         nss.append(sorted([k, v] for k, v in spec.items()))
-    return [dict(op="history", universe=case["universe"], dbmap=obs["dbmap"], preload=case["preload"],
+    if any(co.get("result") == "exc:SystemExit" for co in obs["calls"]):
+        return []           # finding N2 (SystemExit escapes the call): no model of that; the oracle judges the case
+    uni = [dict(m, raises={"exit": "late", "exit_early": "early"}.get(m["raises"], m["raises"])) for m in case["universe"]]
+    return [dict(op="history", universe=uni, dbmap=obs["dbmap"], preload=case["preload"],
                  nss=nss, calls=calls)]
 
 
@@ -1365,6 +1583,13 @@ class AutoImpBase(Prop):
         return gen_case(rng)
 
     def run_impl(self, case):
+        try:
+            return self._run_impl(case)
+        except SystemExit as e:
+            # a sys.exit() of a universe module that got past every call site: must not end a pool worker silently
+            raise RuntimeError("SystemExit escaped the harness") from e
+
+    def _run_impl(self, case):
         b = getattr(self, "_scratch", None)
         if b and os.path.isdir(b):
             return run_history(case, b)
